@@ -69,17 +69,34 @@ structure Inv (c : Cfg) (s : State) : Prop where
 theorem Inv.init (c : Cfg) (hc : c.WF) : Inv c (State.init c) :=
   ⟨Inv1.init c hc, Inv2.init c, Inv2b.init c, Inv3.init c, Inv3X.init c, Inv3U.init c, Inv4.init c, Inv5.init c⟩
 
+/-- the run-counter table of `Inv3` is a consequence of the six implications of `Inv3U` -/
+theorem runsOK_of_U {s : State} (U : Inv3U s) (id : Nat) : runsOK s id := by
+  unfold runsOK
+  split
+  · rename_i h; exact U.u1 id h
+  · rename_i i h; exact U.u2 id i h
+  · rename_i k i h; exact U.u3 id k i h
+  · rename_i h; exact U.u4 id h
+  · rename_i t h
+    split
+    · rename_i hc; exact U.u5 id t h hc.1 hc.2
+    · rename_i hc
+      apply U.u6 id t h
+      by_cases h1 : (s.pc t).exec = some id
+      · right; exact Classical.byContradiction (fun h2 => hc ⟨h1, h2⟩)
+      · left; exact h1
+
 theorem Inv.step {c : Cfg} {s s' : State} {t : Nat} {lb : Lbl} (A : Inv c s) (h : StepCase c s t lb s') : Inv c s' := by
   obtain ⟨I, J, B, K, X, U, M, Z⟩ := A
-  refine ⟨I.step h, J.step I h, ⟨B.step_g5 I J h, B.step_g2u I J h, B.step_l9 I J h⟩, ?_, ?_, ?_, ?_, ?_⟩
+  have U' : Inv3U s' := ⟨U.step_u1 I J K h, U.step_u2 I J K h, U.step_u3 I J K h, U.step_u4 I J K h, U.step_u5 I J K h,
+      U.step_u6 I J K h⟩
+  refine ⟨I.step h, J.step I h, ⟨B.step_g5 I J h, B.step_g2u I J h, B.step_l9 I J h⟩, ?_, ?_, U', ?_, ?_⟩
   · exact ⟨K.step_a1 I J X h, K.step_a2 I J X h, K.step_a3 I J X h, K.step_a4 I J X h, K.step_a5 I J X h,
       K.step_b1 I J X h, K.step_b2 I J X h, K.step_b3c I J h, K.step_b3e I J h, K.step_a6 I J X h,
-      K.step_f1 I J X h, K.step_f2 I J X h, K.step_f3 I J X h, K.step_f4 I J X h, K.step_f5 I J X h,
+      runsOK_of_U U', K.step_f1 I J X h, K.step_f2 I J X h, K.step_f3 I J X h, K.step_f4 I J X h, K.step_f5 I J X h,
       K.step_f6 I J X h, K.step_v2 I J X h, K.step_t1 I J h, K.step_t2 I J h, K.step_t3a I J h,
       K.step_t3b I J h, K.step_t3c I J h⟩
   · exact ⟨K.step_x1 I J X h, K.step_x2 I J X h⟩
-  · exact ⟨U.step_u1 I J K h, U.step_u2 I J K h, U.step_u3 I J K h, U.step_u4 I J K h, U.step_u5 I J K h,
-      U.step_u6 I J K h⟩
   · exact ⟨M.step_m1 I J B K h, M.step_m2 I J B K h, M.step_m3 I J B K h, M.step_m4 I J B K h, M.step_m7 I J B K h,
       M.step_j1 I J B K h, M.step_j2 I J B K h, M.step_j3 I J B K h, M.step_e1 I J B K h⟩
   · exact ⟨Z.step_s1 I J h, Z.step_s2 I J h, Z.step_s3 I J h, Z.step_s4 I J h⟩
